@@ -79,6 +79,7 @@ func StressTrial(legName string, n int, seed int64, nats *NatsServer, maxCopies 
 		return res
 	}
 	defer leg.Close()
+	closedC := tr.Closed() // fires if the transport closes itself: only well-formed frames are sent here
 
 	cs := make([]*stressCaller, n)
 	kinds := ""
@@ -225,6 +226,10 @@ func StressTrial(legName string, n int, seed int64, nats *NatsServer, maxCopies 
 			select {
 			case <-ch:
 				return true
+			case <-closedC:
+				res.Bad = "the transport closed itself while only well-formed responses (duplicates, late and unknown op ids) were arriving: every request in flight on it lost its response (" + what + ")"
+				res.Witness = witness(nil)
+				return false
 			case <-t.C:
 				if s := stalled(); s != "" {
 					res.Stall = s
